@@ -15,7 +15,7 @@ MAX_BYTES_PER_USER = 300            # keeps every interactive_t.text far away fr
 class C12(Prop):
     id = "C12"
     title = "Buffered commands are served fairly: one per user per cycle, nobody starves"
-    lean_modules = ["NV.C12.Props", "NV.C12.Witness", "NV.C12.Trace", "NV.C12.Fifo3"]
+    lean_modules = ["NV.C12.Props", "NV.C12.Witness", "NV.C12.Trace", "NV.C12.Fifo3", "NV.C12.Fifo5", "NV.C12.Neg", "NV.C12.Flag"]
     lean_modules_ = None
     theorems = [
         "NV.C12.flag_bits",
@@ -47,6 +47,12 @@ class C12(Prop):
         "NV.C12.judgeStruct_events",
         "NV.C12.judgeEfun_events",
         "NV.C12.judgeEv_events_eq_data",
+        "NV.C12.judgeFifo_events",
+        "NV.C12.flag_sound",
+        "NV.C12.no_idle_wait",
+        "NV.C12.G_run",
+        "NV.C12.G_puc",
+        "NV.C12.G_processIO",
         "NV.C12.sim_send",
         "NV.C12.sim_arrive",
         "NV.C12.sim_setCall",
@@ -209,6 +215,25 @@ class C12(Prop):
         mk("input-to-noecho", ["script u1 =p itn", "script u1 =q itn;gc", "script u2 =p gc;itn"] + conns(2) +
            ["send u1 p~secret~a~", "send u2 p~zz", "cycle", "cycle", "cycle", "send u1 q~pw~b~", "send u2 y~", "cycle", "cycle",
             "cycle", "cycle"])
+        # sparse table with one high slot; the cursor is parked just below the top slot (top user served last), then the
+        # top user leaves: by its own command, by EOF, by another user's command
+        def sparse(n, keep_low, tail):
+            return (conns(n) + ["close u%d" % i for i in range(keep_low + 1, n)] + ["cycle", "cycle"] +
+                    ["send u%d t~" % n, "cycle"] +                       # only the top user served: cursor = top - 1
+                    tail)
+        mk("sparse-top-leaves-by-own-command", ["script u12 =k kick,u12"] + sparse(12, 2,
+           ["send u1 a~b~c~d~e~", "send u2 a~b~c~d~e~", "send u12 k~", "cycle"] + ["cycle"] * 6))
+        mk("sparse-top-leaves-by-eof", sparse(12, 2,
+           ["send u1 a~b~c~d~e~", "send u2 a~b~c~d~e~", "send u12 z~", "cycle", "close u12"] + ["cycle"] * 6))
+        mk("sparse-top-dropped-by-own-command", ["script u9 =k drop,u9"] + sparse(9, 1,
+           ["send u1 a~b~c~d~", "send u9 k~", "cycle"] + ["cycle"] * 5))
+        mk("sparse-top-kicked-by-other", ["script u11 =k kick,u12"] + sparse(12, 2,
+           ["conn", "cycle",                                               # u13 takes the free slot 3
+            "close u13", "cycle",
+            "send u1 a~b~c~", "send u2 a~b~c~", "send u12 z~", "cycle", "send u1 k~", "cycle", "cycle", "cycle", "cycle"]) )
+        mk("sparse-two-high-slots", ["script u20 =k kick,u20;kick,u19"] + conns(20) +
+           ["close u%d" % i for i in range(3, 19)] + ["cycle", "cycle", "send u20 t~", "cycle",
+            "send u1 a~b~c~d~e~f~", "send u2 a~b~c~d~e~f~", "send u19 x~", "send u20 k~", "cycle"] + ["cycle"] * 8)
         mk("kick-waiting-user", ["script u3 =k kick,u1;kick,u2", "script u2 =s kick,u2;gc"] + conns(3) +
            ["send u1 a~b~", "send u2 a~b~", "send u3 k~c~", "cycle", "cycle", "conn", "cycle", "send u4 s~", "cycle", "cycle"])
         mk("self-kick-and-drop", ["script u2 =s kick,u2;ecmd,u1,m1", "script u1 =d drop,u1;ecmd,u1,m1;gc", "script u1 =m1 it"] +
@@ -332,8 +357,94 @@ class C12(Prop):
         body += ["cycle"] * rng.range(1, 6)
         return E.Case(cid, lines + body + ["run"], {"origin": "generated"})
 
+    def gen_sparse(self, rng, cid):
+        """sparse table with a high slot: connect many, disconnect the middle ones, park the cursor at different slots,
+        then let the top user(s) leave in different ways while the low users have queues"""
+        n = rng.range(5, 16)
+        keep = sorted(set([rng.range(1, max(1, n // 3)) for _ in range(rng.range(1, 3))]))
+        tops = [n] if rng.chance(2, 3) else [n - 1, n]
+        gone = [i for i in range(1, n + 1) if i not in keep and i not in tops]
+        lines = []
+        how = rng.choice(["own-kick", "own-drop", "eof", "other", "eof-later"])
+        top = tops[-1]
+        if how == "own-kick":
+            lines.append("script u%d =k kick,u%d" % (top, top))
+        elif how == "own-drop":
+            lines.append("script u%d =k drop,u%d" % (top, top))
+        elif how == "other":
+            lines.append("script u%d =k kick,u%d" % (rng.choice(keep), top))
+        body = []
+        for _ in range(n):
+            body += ["conn", "cycle"]
+        body += ["close u%d" % i for i in rng.shuffle(gone)] + ["cycle", "cycle"]
+        # park the cursor: serve one chosen user alone
+        parked = rng.choice(tops + keep + tops)
+        body += ["send u%d t~" % parked, "cycle"]
+        depth = rng.range(3, 8)
+        for u in keep:
+            body.append("send u%d %s" % (u, "".join(rng.choice(WORDS[:8]) + "~" for _ in range(depth))))
+        for t in tops:
+            body.append("send u%d %s" % (t, "k~" if (t == top and how.startswith("own")) else rng.choice(WORDS[:8]) + "~"))
+        if how == "other":
+            body.append("cycle")
+            body.append("send u%d k~" % keep[0])
+        body.append("cycle")
+        if how == "eof":
+            body.append("close u%d" % top)
+        elif how == "eof-later":
+            body += ["cycle", "close u%d" % top]
+        body += ["cycle"] * rng.range(depth, depth + 4)
+        if rng.chance(1, 2):
+            body += ["conn", "cycle", "send u%d q~" % (n + 1), "cycle", "cycle"]
+        return E.Case(cid, lines + body + ["run"], {"origin": "generated-sparse"})
+
     def generate(self, rng, n, tier):
-        return [self.gen_case(rng, "g%d" % i, tier) for i in range(n)]
+        out = []
+        for i in range(n):
+            if i % 5 == 4:
+                out.append(self.gen_sparse(rng, "g%d" % i))
+            else:
+                out.append(self.gen_case(rng, "g%d" % i, tier))
+        return out
+
+    def mutate_around(self, case, rng, n):
+        """cases near a differing case: the same history with the slot layout and the cursor position perturbed
+        (extra connects / disconnects in front, single commands that move the cursor, other users leaving), plus
+        fresh sparse-table histories"""
+        out = []
+        lines = [l for l in case.lines if l != "run"]
+        nconn = sum(1 for l in lines if l == "conn")
+        for i in range(n):
+            if i % 3 == 2 or nconn == 0:
+                out.append(self.gen_sparse(rng, "m%d" % i))
+                continue
+            ls = list(lines)
+            for _ in range(rng.range(1, 4)):
+                k = rng.weighted([("move-cursor", 4), ("close", 2), ("kick-script", 1), ("more-cycles", 2), ("queue", 2)])
+                u = rng.range(1, nconn)
+                pos = rng.range(0, len(ls))
+                # never in front of the connects the ids refer to: insert after the u-th conn
+                seen = 0
+                first_ok = 0
+                for j, l in enumerate(ls):
+                    if l == "conn":
+                        seen += 1
+                    if seen >= nconn:
+                        first_ok = j + 2
+                        break
+                pos = max(pos, min(first_ok, len(ls)))
+                if k == "move-cursor":
+                    ls[pos:pos] = ["send u%d %s~" % (u, rng.choice(WORDS[:8])), "cycle"]
+                elif k == "close":
+                    ls[pos:pos] = ["close u%d" % u, "cycle"]
+                elif k == "kick-script":
+                    ls.insert(0, "script u%d =%s kick,u%d" % (u, rng.choice(WORDS[:8]), rng.range(1, nconn)))
+                elif k == "queue":
+                    ls[pos:pos] = ["send u%d %s" % (u, "".join(rng.choice(WORDS[:8]) + "~" for _ in range(rng.range(2, 6))))]
+                else:
+                    ls[pos:pos] = ["cycle"] * rng.range(1, 4)
+            out.append(E.Case("m%d" % i, ls + ["cycle"] * rng.range(2, 6) + ["run"], {"origin": "mutated"}))
+        return out
 
     def histogram(self, cases, impl):
         h = {"cycles": 0, "buffered_cmds": 0, "efun_cmds": 0, "kicks": 0, "drops": 0, "getchar": 0, "input_to": 0,
